@@ -1,4 +1,5 @@
 # C02 — stream layering targets the right documents and treats each independently.
+from ..core import veq
 from .. import core, dgen, gen, hist, histprop
 
 CLI = ("bkl",)
@@ -183,6 +184,66 @@ def run_files(ctx, cases, rng):
     return len(jobs)
 
 
+def singleton_pass(ctx, rng, n, dist):
+    """implementation only: "every selected document receives the result it would receive if it were the only document in
+    the stream": a base stream of 2-4 documents under 1-3 layers whose documents carry no $match (so each merges into every
+    document); the i-th output document must equal the output of the same layers over a base holding document i alone"""
+    import os
+    import shutil
+    from . import c03
+    names = ["a", "a.b", "a.b.c", "a.b.c.d"]
+    jobs = []
+    for ci in range(n):
+        r = rng.fork("s%d" % ci)
+        nbase = 2 + r.below(3)
+        base = []
+        for i in range(nbase):
+            d = gen.tree(r, 2, {"strs": ["s", "t", "v w", "é", ""], "width": 3, "nulls": False}, root_map=True)
+            d["id"] = i
+            base.append(d)
+        layers, cur = [], base[0]
+        for li in range(1 + r.below(3)):
+            docs = []
+            for j in range(1 + r.below(2)):
+                # additive layers only: new keys and nested additions that apply to every base document alike
+                docs.append({r.pick(["n", "m", "t%d" % li]): r.pick([li, "x", {"q": li, "deep": {"d": j}}, [li, {"e": j}]]), "l%d_%d" % (li, j): {"k": [j]}})
+            layers.append(docs)
+        jobs.append((base, layers))
+
+    def run_one(tag, base, layers):
+        d = os.path.join(ctx.work, "sg_" + tag)
+        files = {"a.yaml": ("reg", base)}
+        for li, docs in enumerate(layers):
+            files["%s.%s" % (names[li + 1], "json" if li % 2 else "yaml")] = ("reg", docs)
+        top = sorted(files, key=len)[-1]
+        lay = {"files": files, "opts": {"inputs": [top], "f": "json", "P": False}, "kind": "singleton"}
+        c03.write_layout(d, lay, rng.fork("w" + tag))
+        res = c03.run_bkl(ctx, d, lay["opts"])
+        shutil.rmtree(d, ignore_errors=True)
+        return res
+
+    def one(j):
+        base, layers = jobs[j]
+        full = run_one("%d_full" % j, base, layers)
+        singles = [run_one("%d_%d" % (j, i), [base[i]], layers) for i in range(len(base))]
+        return full, singles
+    results = core.pmap(one, range(len(jobs)))
+    checked = 0
+    for (base, layers), (full, singles) in zip(jobs, results):
+        if full[0] != 0:
+            continue
+        got = core.parse_json_docs(full[1].decode("utf-8", "replace"))
+        for i, sres in enumerate(singles):
+            checked += 1
+            alone = core.parse_json_docs(sres[1].decode("utf-8", "replace")) if sres[0] == 0 else None
+            if (alone is None or len(got) != len(base) or not veq([got[i]], alone)) and len(ctx.violations) < 5:
+                ctx.violations.append({"name": "singleton-" + core.vhash([base, layers, i]), "property": "C02", "kind": "failing-input",
+                                       "why": "document %d of the stream evaluates to %s, but to %s when it is the only document of the base" % (i, hist.short(got[i] if i < len(got) else None), hist.short(alone)),
+                                       "base": core.to_jsonable(base), "layers": core.to_jsonable(layers), "class": "c02-not-independent"})
+    dist["singleton_comparisons"] = checked
+    return checked
+
+
 def run(ctx):
     n = ctx.n(1200, 25000)
     stats = histprop.run_history_property(ctx, "C02", gen_case, n, RULE, nontrivial, dist_fn=dist_fn)
@@ -192,6 +253,7 @@ def run(ctx):
     done = run_files(ctx, cases, rng)
     stats["distribution"]["through_layer_files"] = done
     stats["evaluations"] += done
+    stats["evaluations"] += singleton_pass(ctx, core.Rng(ctx.seed + 7), ctx.n(40, 800), stats["distribution"])
     stats["disagreements_checked"] = len(ctx.violations)
     return stats
 
